@@ -78,6 +78,22 @@ SIM_SCENARIO(scen_c14, "c14", "C14", 6000000, 30000) {
         }
         for (auto& kv : world.sunk) SIM_CHECK(std::find(accepted_ids.begin(), accepted_ids.end(), kv.first) != accepted_ids.end() || topo == 3, "oracle:message-invented", "message %d reached the sink but its try_put returned false", kv.first);
     };
+    // reuse of the graph after it went idle: optionally a late cancel() on the idle graph, then graph::reset(), then a
+    // second round of puts that must be processed completely (nothing is cancelled in that round)
+    int reuse = (int)sim::draw(4, "reuse");      // 0,1: none; 2: reset and reuse; 3: late cancel on the idle graph, reset, reuse
+    auto second_round = [&](receiver<int>& target, bool may_reject, int sink_node) {
+        if (reuse < 2) return;
+        if (reuse == 3) { sim::fault_fired("cancel"); g.cancel(); }
+        g.reset();
+        SIM_CHECK(!g.is_cancelled(), "oracle:not-reusable", "graph::is_cancelled() is true right after graph::reset()");
+        world.sunk.clear(); for (auto& n : world.ns) { n.processed.clear(); n.bodies = 0; }
+        accepted_ids.clear(); accepted = rejected = 0; world.idle_declared = false; world.cancelled = false; do_cancel = false;
+        put_all(target, may_reject);
+        finish(true, sink_node);
+        SIM_CHECK(!g.is_cancelled(), "oracle:not-reusable", "graph::is_cancelled() after a run of the reset graph that nobody cancelled");
+        sim::probe(reuse == 3 ? "graph:reuse-after-late-cancel" : "graph:reuse-after-reset");
+    };
+    d.add(hx::fmt("reuse=%s", reuse < 2 ? "no" : reuse == 2 ? "reset" : "late-cancel+reset")); d.publish();
     switch (topo) {
     case 0: {   // chain F1 -> F2 -> sink
         world.ns[0].limit = c1; world.ns[1].limit = c2; world.ns[2].limit = 1;
@@ -87,13 +103,13 @@ SIM_SCENARIO(scen_c14, "c14", "C14", 6000000, 30000) {
         function_node<int, continue_msg, queueing> sink(g, serial, sink_body(2));
         if (rej1) {
             function_node<int, int, rejecting> f1(g, conc_of(c1), b0); make_edge(f1, f2); make_edge(f2, sink);
-            put_all(f1, c1 != 0); finish(true, 2);
+            put_all(f1, c1 != 0); finish(true, 2); second_round(f1, c1 != 0, 2);
         } else if (lw) {
             function_node<int, int, queueing_lightweight> f1(g, conc_of(c1), b0); make_edge(f1, f2); make_edge(f2, sink);
-            put_all(f1, false); finish(true, 2);
+            put_all(f1, false); finish(true, 2); second_round(f1, false, 2);
         } else {
             function_node<int, int, queueing> f1(g, conc_of(c1), b0); make_edge(f1, f2); make_edge(f2, sink);
-            put_all(f1, false); finish(true, 2);
+            put_all(f1, false); finish(true, 2); second_round(f1, false, 2);
         }
         break;
     }
@@ -123,8 +139,8 @@ SIM_SCENARIO(scen_c14, "c14", "C14", 6000000, 30000) {
         function_node<int, int, rejecting> f(g, serial, [&](int m) { enter(0, m); leave(0); return m; });
         function_node<int, continue_msg, queueing> sink(g, serial, sink_body(1));
         make_edge(f, sink);
-        if (use_queue) { queue_node<int> q(g); make_edge(q, f); put_all(q, false); finish(true, 1); }
-        else { buffer_node<int> q(g); make_edge(q, f); put_all(q, false); finish(true, 1); }
+        if (use_queue) { queue_node<int> q(g); make_edge(q, f); put_all(q, false); finish(true, 1); second_round(q, false, 1); }
+        else { buffer_node<int> q(g); make_edge(q, f); put_all(q, false); finish(true, 1); second_round(q, false, 1); }
         break;
     }
     case 3: {   // input_node -> limiter(threshold) -> slow F -> sink, completion feeds the limiter's decrement port
@@ -152,7 +168,7 @@ SIM_SCENARIO(scen_c14, "c14", "C14", 6000000, 30000) {
         function_node<int, continue_msg, queueing> s0(g, serial, [&](int m) -> continue_msg { enter(1, m); SIM_CHECK(m % 2 == 0, "oracle:routing", "odd message %d on port 0", m); world.sunk[m]++; leave(1); return continue_msg(); });
         function_node<int, continue_msg, queueing> s1(g, serial, [&](int m) -> continue_msg { enter(2, m); SIM_CHECK(m % 2 == 1, "oracle:routing", "even message %d on port 1", m); world.sunk[m]++; leave(2); return continue_msg(); });
         make_edge(output_port<0>(mf), s0); make_edge(output_port<1>(mf), s1);
-        put_all(mf, false); finish(true, 1);
+        put_all(mf, false); finish(true, 1); second_round(mf, false, 1);
         break;
     }
     case 5: {   // continue_node with two predecessors fires once per pair of signals
